@@ -259,6 +259,6 @@ pub fn build() -> Property {
             "the dispatch key is the link id (FEE ID in stave mode) found in the bytes: a corruption that changes it moves the packet to another link by definition".into(),
             "exclusions: RDH0 / framing of a link's first packet are not corrupted; payload layout keeps agreeing with the header's format".into(),
         ],
-        phases: vec![Phase { name: "cli_vs_sequential", kind: PhaseKind::Gen { cases: (240, 2400), tape_len: 64 + 64 + 2000 + 6 * 4000 + 14000 + 400, f: Box::new(case) }, threads: 16 }],
+        phases: vec![Phase { name: "cli_vs_sequential", kind: PhaseKind::Gen { cases: (1200, 8000), tape_len: 64 + 64 + 2000 + 6 * 4000 + 14000 + 400, f: Box::new(case) }, threads: 16 }],
     }
 }
